@@ -198,6 +198,9 @@ def generate(shapes, seed, tier='quick'):
                 k0 = rng.choice([0, 0, min(cap, 1), min(cap, 2), min(cap, 8)])
                 if t[0] == 'vec':
                     ini = '(viter%s)' % ''.join(' ' + gen_init(t[1], rng, 1, allow_default=False) for _ in range(k0)) if k0 else 'empty'
+                    # more slots than the length type can count: flat_vec! of L::MAX + 1 items must be refused
+                    if n == ms + 300 * max(s, 1) and t[1][0] in ('int', 'bool') and s in (1, 2) and rng.random() < 0.5:
+                        ini = '(varr%s)' % ''.join(' ' + gen_init(t[1], rng, 1, allow_default=False) for _ in range(256))
                     ops = gen_vec_ops(t, rng, rng.randint(3, 22), cap, k0)
                 else:
                     ini = 'empty' if k0 == 0 else '(str %s)' % hexs(b'ab'[:min(k0, 2)])
